@@ -320,6 +320,42 @@ func init() {
 		return nil
 	})
 
+	// ---- sync.Pool: a LIFO free list per pool (the real one is per-P and may drop items at any GC;
+	// returning the most recently put item is one of its legal behaviours and the one that makes reuse visible)
+	poolKey := func(r *Run, v Value) *Agg {
+		p := v.(Ptr)
+		if p.A == nil {
+			r.nilDeref("sync.Pool")
+		}
+		return r.rd(p.A)[p.I].(*Agg)
+	}
+	reg("(*sync.Pool).Get", func(r *Run, caller *frame, _ *ssa.Function, args []Value) Value {
+		pool := poolKey(r, args[0])
+		key := fmt.Sprintf("pool:%p", pool)
+		items, _ := r.stubState[key].([]Value)
+		if len(items) > 0 {
+			it := items[len(items)-1]
+			r.stubState[key] = items[:len(items)-1]
+			return it
+		}
+		es := r.rd(pool)
+		newFn := es[len(es)-1]
+		if c, ok := newFn.(*Closure); ok && c != nil {
+			return r.callValue(c, nil, caller)
+		}
+		return Iface{}
+	})
+	reg("(*sync.Pool).Put", func(r *Run, caller *frame, _ *ssa.Function, args []Value) Value {
+		pool := poolKey(r, args[0])
+		key := fmt.Sprintf("pool:%p", pool)
+		if ifc, ok := args[1].(Iface); ok && ifc.T == nil {
+			return nil
+		}
+		items, _ := r.stubState[key].([]Value)
+		r.stubState[key] = append(items, args[1])
+		return nil
+	})
+
 	// ---- sync/atomic ----
 	atomicOp := func(kind string) Intrinsic {
 		return func(r *Run, _ *frame, fn *ssa.Function, args []Value) Value {
